@@ -25,6 +25,7 @@
 -/
 import Wormhole.Inv.MbClaim
 import Wormhole.Inv.Main
+import Wormhole.Inv.WFDec
 
 namespace Wormhole
 namespace C05
@@ -220,7 +221,7 @@ theorem HSub.of_conns {cs0 : List Conn} {s s' : Sys} (h : HSub cs0 s) (e : s'.co
   intro x' hx'; rw [e] at hx'; exact h x' hx'
 
 theorem HSub.closed (cs0 : List Conn) : Closed (HSub cs0) where
-  emit := fun _ _ h => h
+  emit := fun _ _ _ h => h
   modUdb := fun _ _ h => h
   commit := fun s h => h.of_conns (commit_conns s)
   ucommit := fun s h => h.of_conns (ucommit_conns s)
@@ -238,13 +239,13 @@ theorem HSub.closed (cs0 : List Conn) : Closed (HSub cs0) where
       exact h y hy mb hm
 
 theorem HSub.closedDel (cs0 : List Conn) : ClosedDel (HSub cs0) where
-  emit := fun _ _ h => h
+  emit := fun _ _ _ h => h
   modUdb := fun _ _ h => h
   commit := fun s h => h.of_conns (commit_conns s)
   ucommit := fun s h => h.of_conns (ucommit_conns s)
   del := fun _ _ _ h => h
 
-theorem HSub.refl (s : Sys) : HSub s.conns s := fun x' hx' mb hm => ⟨x', hx', rfl, hm, rfl, rfl⟩
+theorem HSub.refl (s : Sys) : HSub s.conns s := fun x' hx' _ hm => ⟨x', hx', rfl, hm, rfl, rfl⟩
 
 /-- a handle after the step is the handle of an `open` that was just granted -/
 def Granted (s : Sys) (op : Op) (x' : Conn) (mb : String) : Prop :=
@@ -378,12 +379,12 @@ theorem handle_origin {g : GSys} (hI : g.GInv) (op : Op) {x' : Conn}
             · left
               obtain ⟨_, _, hcs⟩ := h1 hcl
               rw [hcs] at hx'
-              exact hold _ (fun y => ⟨rfl, rfl, rfl, rfl⟩) hx'
+              exact hold (fun y => { y with mailboxId := some mb0 }) (fun y => ⟨rfl, rfl, rfl, rfl⟩) hx'
             · by_cases hlen : ((g.sys.db.openDb app mb0 (x.side.getD "") t).mbSidesOf mb0).length > 2
               · left
                 obtain ⟨_, _, _, _, _, _, hcs⟩ := h2 hcl hlen
                 rw [hcs] at hx'
-                exact hold _ (fun y => ⟨rfl, rfl, rfl, rfl⟩) hx'
+                exact hold (fun y => { y with mailboxId := some mb0 }) (fun y => ⟨rfl, rfl, rfl, rfl⟩) hx'
               · obtain ⟨_, hdb, _, _, _, _, hcs⟩ := h3 hcl hlen
                 rw [hcs] at hx'
                 obtain ⟨y, hy, rfl⟩ := List.mem_map.1 hx'
@@ -394,7 +395,7 @@ theorem handle_origin {g : GSys} (hI : g.GInv) (op : Op) {x' : Conn}
                   subst this
                   simp only [hc, if_true] at hm ⊢
                   cases hm
-                  exact ⟨c, t, id, y, app, rfl, hx, hr, happ, hcl, hlen, hdb, rfl, rfl, hc⟩
+                  exact ⟨c, t, id, y, app, rfl, hx, hr, happ, hcl, hlen, hdb, rfl, rfl, rfl⟩
                 · left
                   simp only [hc, if_false] at hm ⊢
                   exact ⟨y, hy, rfl, hm, rfl, rfl⟩
@@ -452,9 +453,729 @@ theorem handle_origin {g : GSys} (hI : g.GInv) (op : Op) {x' : Conn}
                     exact ⟨y, hy, rfl, hm', rfl, rfl⟩
             · left
               rw [step_recv] at hx'
-              exact (HSub.closed g.sys.conns).onMessage h0 c t id
+              exact (HSub.closed g.sys.conns).onMessage h0 c t id (fun _ _ _ _ h => h)
                 (fun a sd i v e => hb ⟨a, sd, i, v, e⟩) (fun m e => ho ⟨m, e⟩)
                 (fun m mood e => hcs ⟨m, mood, e⟩) x' hx' mb hm
 
+/-! ## side rows live as long as their mailbox row -/
+
+theorem length_sidesOf (d : Chan) (mb : String) : (d.sidesOf mb).length = (d.mbSidesOf mb).length := by
+  simp [Chan.sidesOf]
+
+/-- **C05 (side rows of a mailbox are only deleted together with the mailbox row).**  Over EVERY
+    operation — sweeps and crashes at any commit point included — if a mailbox row with id `mb`
+    is there afterwards, the list of sides of `mb` (in table order) is the old one, possibly
+    extended at the end. -/
+theorem C05_sides_only_grow {g : GSys} (hI : g.GInv) (op : Op) {mb : String}
+    (hid : (g.sys.step op).db.HasId mb) :
+    g.sys.db.sidesOf mb <+: (g.sys.step op).db.sidesOf mb :=
+  (step_MD g.sys hI.synced.1 op).sides hid
+
+/-- every side row survives (possibly with `opened` / `mood` changed) while the mailbox row does -/
+theorem C05_side_rows_kept {g : GSys} (hI : g.GInv) (op : Op) {mb : String}
+    (hid : (g.sys.step op).db.HasId mb) {r : MbSide} (hr : r ∈ g.sys.db.mbSides) (hm : r.mailbox = mb) :
+    ∃ r' ∈ (g.sys.step op).db.mbSides, r'.mailbox = mb ∧ r'.side = r.side := by
+  have h1 : r.side ∈ g.sys.db.sidesOf mb := by
+    simp only [Chan.sidesOf, Chan.mbSidesOf, List.mem_map, List.mem_filter, decide_eq_true_eq]
+    exact ⟨r, ⟨hr, hm⟩, rfl⟩
+  have h2 := (C05_sides_only_grow hI op hid).mem h1
+  simp only [Chan.sidesOf, Chan.mbSidesOf, List.mem_map, List.mem_filter, decide_eq_true_eq] at h2
+  obtain ⟨r', ⟨hr', hm'⟩, hs⟩ := h2
+  exact ⟨r', hr', hm', hs⟩
+
+/-- **once more than two side rows, always more than two** until the mailbox row is deleted -/
+theorem C05_crowded_stays {g : GSys} (hI : g.GInv) (op : Op) {mb : String}
+    (hid : (g.sys.step op).db.HasId mb) (h : 2 < (g.sys.db.mbSidesOf mb).length) :
+    2 < ((g.sys.step op).db.mbSidesOf mb).length := by
+  have := (C05_sides_only_grow hI op hid).length_le
+  rw [length_sidesOf, length_sidesOf] at this
+  omega
+
+/-- ... so the third-party situation persists over every operation that keeps the mailbox row -/
+theorem C05_third_stays {g : GSys} (hI : g.GInv) (op : Op) {mb : String}
+    (hid : (g.sys.step op).db.HasId mb) (h : 2 < (g.sys.db.mbSidesOf mb).length) (side : String) :
+    Third (g.sys.step op).db mb side := Or.inr (C05_crowded_stays hI op hid h)
+
+/-- **`first2` never changes once it has two elements** while the mailbox row exists (and before
+    that it only grows at the end) -/
+theorem C05_first2_stable {g : GSys} (hI : g.GInv) (op : Op) {mb : String}
+    (hid : (g.sys.step op).db.HasId mb) :
+    g.sys.db.first2 mb <+: (g.sys.step op).db.first2 mb ∧
+    ((g.sys.db.first2 mb).length = 2 → (g.sys.step op).db.first2 mb = g.sys.db.first2 mb) := by
+  have hp : g.sys.db.first2 mb <+: (g.sys.step op).db.first2 mb := by
+    rw [Chan.first2_eq, Chan.first2_eq]
+    exact Chan.prefix_take (C05_sides_only_grow hI op hid) 2
+  refine ⟨hp, fun h2 => (hp.eq_of_length ?_).symm⟩
+  have : ((g.sys.step op).db.first2 mb).length ≤ 2 := by
+    rw [Chan.first2_eq]; simp [List.length_take]; omega
+  have := hp.length_le
+  omega
+
+/-! ## subscribers are among the first two sides -/
+
+/-- every connection that holds a handle (= is subscribed, `ConnInv.handle`) is bound to one of
+    the first two sides of that mailbox -/
+def SubFirst2 (s : Sys) : Prop :=
+  ∀ x ∈ s.conns, ∀ mb, x.mailbox = some mb → x.side.getD "" ∈ s.db.first2 mb
+
+theorem SubFirst2.handleRow {s : Sys} (h : SubFirst2 s) : s.HandleRow := by
+  intro x hx mb hm
+  have := h x hx mb hm
+  rw [Chan.first2_eq] at this
+  have := (List.take_prefix 2 _).mem this
+  simp only [Chan.sidesOf, Chan.mbSidesOf, List.mem_map, List.mem_filter, decide_eq_true_eq] at this
+  obtain ⟨r, ⟨hr, h1⟩, h2⟩ := this
+  exact ⟨r, hr, h1, h2⟩
+
+/-- a handle is granted only to a side that is then among the first two -/
+theorem granted_first2 {s : Sys} {op : Op} {x' : Conn} {mb : String} (hG : Granted s op x' mb) :
+    x'.side.getD "" ∈ (s.step op).db.first2 mb ∧ ((s.step op).db.mbSidesOf mb).length ≤ 2 := by
+  obtain ⟨c, t, id, x, app, _, _, _, _, _, hlen, hdb, hs, _, _⟩ := hG
+  rw [hdb, hs]
+  refine ⟨?_, by omega⟩
+  rw [Chan.first2_eq, List.take_of_length_le (by rw [length_sidesOf]; omega)]
+  have hne := Chan.openDb_findMbSide_ne_none s.db app mb (x.side.getD "") t
+  cases hf : (s.db.openDb app mb (x.side.getD "") t).findMbSide mb (x.side.getD "") with
+  | none => exact absurd hf hne
+  | some r =>
+    obtain ⟨hr, h1, h2⟩ := Chan.findMbSide_some_mbx hf
+    simp only [Chan.sidesOf, Chan.mbSidesOf, List.mem_map, List.mem_filter, decide_eq_true_eq]
+    exact ⟨r, ⟨hr, h1⟩, h2⟩
+
+/-- **C05 (`open` grants a handle only to a first-two side).**  After an `open` that passes
+    validation, if the caller's connection holds a handle then its side is in `first2` of the
+    mailbox and the mailbox has at most two side rows. -/
+theorem C05_open_grants_first2 {g : GSys} (hI : g.GInv) {c : Nat} {x : Conn} {mb : String}
+    (hx : g.sys.findConn c = some x) (hr : rejectText x (.open_ (some mb)) = none) (t : Time) (id : Val)
+    {x' : Conn} (hx' : x' ∈ (g.sys.step (.recv c t id (.open_ (some mb)))).conns) (hid : x'.id = c)
+    {mb' : String} (hm : x'.mailbox = some mb') :
+    mb' = mb ∧ x'.side.getD "" ∈ (g.sys.step (.recv c t id (.open_ (some mb)))).db.first2 mb ∧
+    ((g.sys.step (.recv c t id (.open_ (some mb)))).db.mbSidesOf mb).length ≤ 2 := by
+  rcases handle_origin hI _ hx' hm with ⟨y, hy, h1, h2, _, _⟩ | hG
+  · exfalso
+    have : y = x := Chan.eq_of_pairwise_ne (f := Conn.id) hI.conn.ids hy (findConn_mem hx)
+      (h1.trans (hid.trans (findConn_id hx).symm))
+    subst this
+    obtain ⟨_, hnone, _⟩ := open_accepted hr
+    rw [hnone] at h2; cases h2
+  · have hmb : mb' = mb := by
+      obtain ⟨_, _, _, _, _, hop, _⟩ := hG
+      cases hop; rfl
+    subst hmb
+    exact ⟨rfl, granted_first2 hG⟩
+
+/-- **C05 (subscription form, one step).**  "Every subscriber is bound to one of the first two
+    sides of its mailbox" is preserved by every operation (from a state with `GInv` to a state
+    with `GInv`). -/
+theorem C05_subscribers_first2_step {g : GSys} (hI : g.GInv) (hF : SubFirst2 g.sys) (op : Op)
+    (hI' : (g.step op).GInv) : SubFirst2 (g.step op).sys := by
+  intro x' hx' mb hm
+  show x'.side.getD "" ∈ (g.sys.step op).db.first2 mb
+  rcases handle_origin hI op hx' hm with ⟨x, hx, _, h2, h3, _⟩ | hG
+  · have hin := hF x hx mb h2
+    rw [h3] at hin
+    obtain ⟨_, _, _, m0, hm0, hi, _⟩ := hI'.conn.handle x' hx' mb hm
+    exact (C05_first2_stable hI op (mb := mb) ⟨m0, hm0, hi⟩).1.mem hin
+  · exact (granted_first2 hG).1
+
+/-- **C05 (subscription form).**  In every reachable state every subscriber is bound to one of
+    the first two sides (by insertion order) of the mailbox it is subscribed to. -/
+theorem C05_subscribers_first2 (hreach : ∀ g : GSys, g.Reach → g.GInv) {g : GSys} (hg : g.Reach) :
+    SubFirst2 g.sys := by
+  induction hg with
+  | init cfg rb => intro x hx; cases hx
+  | step op hg0 hw ih => exact C05_subscribers_first2_step (hreach _ hg0) ih op (hreach _ (.step op hg0 hw))
+
+/-- `HandleRow` (used by Props/C08.lean) in every reachable state -/
+theorem handleRow_reach (hreach : ∀ g : GSys, g.Reach → g.GInv) {g : GSys} (hg : g.Reach) :
+    g.sys.HandleRow := (C05_subscribers_first2 hreach hg).handleRow
+
+/-- `HandleRow` is preserved by every step between states with `GInv` -/
+theorem handleRow_step {g : GSys} (hI : g.GInv) (hF : SubFirst2 g.sys) (op : Op)
+    (hI' : (g.step op).GInv) : (g.step op).sys.HandleRow :=
+  (C05_subscribers_first2_step hI hF op hI').handleRow
+
+/-! ### "ever subscribed to one incarnation" -/
+
+theorem run_append (g : GSys) (a b : List Op) : g.run (a ++ b) = (g.run a).run b := by
+  induction a generalizing g with
+  | nil => rfl
+  | cons op rest ih => simp [GSys.run, ih]
+
+theorem wf_append {g : GSys} {a b : List Op} (h : g.WF (a ++ b)) : g.WF a ∧ (g.run a).WF b := by
+  induction a generalizing g with
+  | nil => exact ⟨trivial, h⟩
+  | cons op rest ih =>
+    obtain ⟨h1, h2⟩ := h
+    obtain ⟨h3, h4⟩ := ih h2
+    exact ⟨⟨h1, h3⟩, h4⟩
+
+/-- `first2` only grows along a history throughout which the mailbox row exists -/
+theorem first2_mono_run (hreach : ∀ g : GSys, g.Reach → g.GInv) (mb : String) :
+    ∀ (ops : List Op) {g : GSys}, g.Reach → g.WF ops →
+      (∀ p1 p2, ops = p1 ++ p2 → p1 ≠ [] → (g.run p1).sys.db.HasId mb) →
+      g.sys.db.first2 mb <+: (g.run ops).sys.db.first2 mb := by
+  intro ops
+  induction ops with
+  | nil => intro g _ _ _; exact List.prefix_refl _
+  | cons op rest ih =>
+    intro g hg hwf halive
+    have h1 : (g.step op).sys.db.HasId mb := halive [op] rest rfl (by simp)
+    have hstep := (C05_first2_stable (hreach g hg) op (mb := mb) h1).1
+    refine hstep.trans (ih (.step op hg hwf.1) hwf.2 ?_)
+    intro p1 p2 e hne
+    have := halive (op :: p1) p2 (by rw [e]; rfl) (by simp)
+    exact this
+
+/-- **C05 (at most two sides are ever subscribed to one incarnation of a mailbox).**  Along a
+    well-formed history from a reachable state, split as `pre ++ post`: if a mailbox row with id
+    `mb` exists after every operation of `post` (one incarnation), then every connection that is
+    subscribed to `mb` at the split point is bound to a side in `first2` of `mb` AT THE END — a list
+    of at most two sides that serves all split points at once. -/
+theorem C05_ever_subscribed (hreach : ∀ g : GSys, g.Reach → g.GInv) {g : GSys} (hg : g.Reach)
+    (pre post : List Op) (hwf : g.WF (pre ++ post)) (mb : String)
+    (halive : ∀ p1 p2, post = p1 ++ p2 → p1 ≠ [] → ((g.run pre).run p1).sys.db.HasId mb)
+    {x : Conn} (hx : x ∈ (g.run pre).sys.conns) (hm : x.mailbox = some mb) :
+    x.side.getD "" ∈ (g.run (pre ++ post)).sys.db.first2 mb ∧
+    ((g.run (pre ++ post)).sys.db.first2 mb).length ≤ 2 := by
+  obtain ⟨hw1, hw2⟩ := wf_append hwf
+  have hg1 : (g.run pre).Reach := GSys.reach_run hg pre hw1
+  have h1 := C05_subscribers_first2 hreach hg1 x hx mb hm
+  rw [run_append]
+  refine ⟨(first2_mono_run hreach mb post hg1 hw2 halive).mem h1, ?_⟩
+  rw [Chan.first2_eq]; simp [List.length_take]; omega
+
+/-! ## who is sent a `message` frame -/
+
+/-- no `message` frame has been emitted in the current step -/
+def NoMsgOut (s : Sys) : Prop := ∀ e ∈ s.out, e.isMsg = false
+
+theorem noMessage_of_noMsg {l : List Event} (h : ∀ e ∈ l, e.isMsg = false) : NoMessage l := by
+  intro e he c sd ph bd rx i b heq
+  have := h e he
+  rw [heq] at this
+  cases this
+
+theorem NoMsgOut.of_out {s s' : Sys} (h : NoMsgOut s) (e : s'.out = s.out) : NoMsgOut s' := by
+  intro ev hev; rw [e] at hev; exact h ev hev
+
+theorem NoMsgOut.closedC : ClosedC NoMsgOut where
+  emit := by
+    intro s e he h ev hev
+    simp only [emit_out, List.mem_append, List.mem_singleton] at hev
+    rcases hev with hev | rfl
+    · exact h ev hev
+    · exact he
+  modUdb := fun _ _ h => h
+  commit := by
+    intro s h
+    unfold Sys.commit
+    split
+    · exact h
+    · intro ev hev
+      simp only [List.mem_append, List.mem_singleton] at hev
+      rcases hev with hev | rfl
+      · exact h ev hev
+      · rfl
+  ucommit := by
+    intro s h
+    unfold Sys.ucommit
+    split
+    · exact h
+    · intro ev hev
+      simp only [List.mem_append, List.mem_singleton] at hev
+      rcases hev with hev | rfl
+      · exact h ev hev
+      · rfl
+  grow := fun _ _ _ h => h
+  flag := fun _ _ _ _ h => h
+  anyConns := fun _ _ h => h
+
+theorem NoMsgOut.closedDel : ClosedDel NoMsgOut where
+  toClosedBase := NoMsgOut.closedC.toClosedBase
+  del := fun _ _ _ h => h
+
+/-- the operation is an `add` or an `open` (the only commands that send `message` frames) -/
+def Op.isAddOrOpen : Op → Bool
+  | .recv _ _ _ (.add _ _) => true
+  | .recv _ _ _ (.open_ _) => true
+  | _ => false
+
+theorem stepPlain_noMsg {s : Sys} (h : NoMsgOut s) (op : Op) (hop : Op.isAddOrOpen op = false) :
+    NoMsgOut (s.stepPlain op) := by
+  cases op with
+  | connect c =>
+    exact NoMsgOut.closedC.toClosedBase.send (s := { s with conns := s.conns ++ [({ id := c } : Conn)] }) h _ _
+  | recv c t id cmd =>
+    refine onMessage_track NoMsgOut.closedC NoMsgOut.closedC.toClosedBase (fun _ _ h => h) (fun _ h => h)
+      c t id cmd ?_ (fun _ _ _ _ _ _ _ _ _ _ h _ => h) (fun _ _ _ _ _ _ _ _ _ _ h _ => h) h
+    rintro (⟨ph, bd, rfl⟩ | ⟨m, rfl⟩) <;> simp [Op.isAddOrOpen] at hop
+  | drop c => exact h
+  | sweep now fault => exact NoMsgOut.closedDel.expire h now fault
+  | restart t => exact h
+  | crashIn k op => exact h
+
+theorem out_crash_subset (s : Sys) (k : Nat) (op : Op) {e : Event} (he : e ∈ (s.step (.crashIn k op)).out) :
+    e ∈ (({ s with out := [], snaps := [] } : Sys).stepPlain op).out := by
+  unfold Sys.step at he
+  dsimp only at he
+  split at he
+  · cases he
+  · exact Sys.mem_cutAtCommit _ _ _ he
+  · exact he
+
+theorem foldl_send_to_out (f : Frame) (l : List Nat) :
+    ∀ (s : Sys), (l.foldl (fun s c => s.send c f) s).out =
+        s.out ++ l.map (fun c => Event.frame c f s.synced) := by
+  induction l with
+  | nil => intro s; simp
+  | cons a l ih =>
+    intro s
+    simp only [List.foldl_cons]
+    rw [ih]
+    have : (s.send a f).synced = s.synced := rfl
+    rw [this]
+    simp [Sys.send]
+
+/-- **`message` frames are sent only by `add` and `open`** (any state, any operation, crashes and
+    sweeps included) -/
+theorem C05_no_message_unless_add_open (s : Sys) (op : Op) (hop : Op.isAddOrOpen op.core = false) :
+    NoMessage (s.step op).out := by
+  apply noMessage_of_noMsg
+  have h0 : NoMsgOut ({ s with out := [], snaps := [] } : Sys) := by intro e he; cases he
+  by_cases hcr : ∃ k op', op = .crashIn k op'
+  · obtain ⟨k, op', rfl⟩ := hcr
+    intro e he
+    exact stepPlain_noMsg h0 op' hop e (out_crash_subset s k op' he)
+  · have hnc : op.isCrash = false := by
+      cases op <;> first | rfl | exact absurd ⟨_, _, rfl⟩ hcr
+    have hcore : op.core = op := by
+      cases op <;> first | rfl | exact absurd ⟨_, _, rfl⟩ hcr
+    rw [step_eq_of_not_crash s hnc]
+    rw [hcore] at hop
+    exact stepPlain_noMsg h0 op hop
+
+/-- the exact output of an accepted `add`: ack, commits, one `message` frame per listener of the
+    sender's mailbox -/
+theorem add_step_out {s : Sys} (hS : s.Synced) {c : Nat} {x : Conn} {app mb : String} {ph bd : Val}
+    (hx : s.findConn c = some x) (happ : x.app = some app) (hm : x.mailbox = some mb) (t : Time) (id : Val) :
+    ∃ commits, (∀ e ∈ commits, IsCommit e) ∧
+      (s.step (.recv c t id (.add (some ph) (some bd)))).out =
+        .frame c (.ack id) true :: (commits ++ (s.listeners app mb).map
+          (fun c' => Event.frame c' (.message (x.side.getD "") ph bd t id) true)) := by
+  have hsy : s.synced = true := (synced_iff s).2 hS
+  have hstep : s.step (.recv c t id (.add (some ph) (some bd))) =
+      ((({ s with out := [], snaps := [] } : Sys).send c (.ack id)).addMessage app mb (x.side.getD "") ph bd t id).broadcast
+        app mb (.message (x.side.getD "") ph bd t id) := by
+    rw [step_recv]
+    unfold Sys.onMessage
+    have : ({ s with out := [], snaps := [] } : Sys).findConn c = some x := hx
+    simp only [this, happ]
+    unfold Sys.handleAdd
+    simp only [hm]
+  rw [hstep]
+  generalize hA : (({ s with out := [], snaps := [] } : Sys).send c (.ack id)) = sA
+  have hAout : sA.out = [.frame c (.ack id) true] := by rw [← hA, ← hsy]; rfl
+  have hAconns : sA.conns = s.conns := by rw [← hA]; rfl
+  have hAsync : sA.Synced := by rw [← hA]; exact hS
+  obtain ⟨commits, hout, hc⟩ := CExt.addMessage (OutExt.refl (s := sA)) (app := app) (mb := mb)
+    (side := x.side.getD "") (phase := ph) (body := bd) (t := t) (id := id)
+  have hd := addMessage_donly sA app mb (x.side.getD "") ph bd t id
+  have hsync2 : (sA.addMessage app mb (x.side.getD "") ph bd t id).Synced :=
+    ⟨(addMessage_disk sA app mb (x.side.getD "") ph bd t id).symm, by rw [hd.udb, hd.udisk]; exact hAsync.2⟩
+  refine ⟨commits, hc, ?_⟩
+  unfold Sys.broadcast
+  rw [foldl_send_to_out, (synced_iff _).2 hsync2, hout, hAout]
+  have : (sA.addMessage app mb (x.side.getD "") ph bd t id).listeners app mb = s.listeners app mb := by
+    unfold Sys.listeners; rw [addMessage_conns, hAconns]
+  rw [this]
+  simp
+
+/-! ## C05_keep_partial: a refused attempt disturbs nobody -/
+
+/-- what a refused attempt leaves alone -/
+structure Keeps (s s' : Sys) (mb : String) : Prop where
+  /-- every side row of every mailbox is literally still there -/
+  rows : ∀ r ∈ s.db.mbSides, r ∈ s'.db.mbSides
+  /-- the first two sides of the mailbox are the same -/
+  first2 : s'.db.first2 mb = s.db.first2 mb
+  /-- other mailboxes have exactly their side rows -/
+  others : ∀ mb', mb' ≠ mb → s'.db.mbSidesOf mb' = s.db.mbSidesOf mb'
+  /-- no message is added, removed or changed -/
+  messages : s'.db.messages = s.db.messages
+  /-- every connection keeps its binding, its handle and its subscription -/
+  subs : ∀ y ∈ s.conns, ∃ y' ∈ s'.conns, y'.id = y.id ∧ y'.mailbox = y.mailbox ∧
+    y'.listening = y.listening ∧ y'.app = y.app ∧ y'.side = y.side
+
+theorem Third.two_le {d : Chan} {mb side : String} (h : Third d mb side) : 2 ≤ (d.mbSidesOf mb).length := by
+  rcases h with ⟨h, _⟩ | h <;> omega
+
+theorem keeps_of_openDb {d d' : Chan} {app mb side : String} {t : Time}
+    (h1 : d'.mbSides = (d.openDb app mb side t).mbSides) (hlen : 2 ≤ (d.mbSidesOf mb).length) :
+    (∀ r ∈ d.mbSides, r ∈ d'.mbSides) ∧ d'.first2 mb = d.first2 mb ∧
+    (∀ mb', mb' ≠ mb → d'.mbSidesOf mb' = d.mbSidesOf mb') := by
+  have hof : ∀ mb', d'.mbSidesOf mb' = (d.openDb app mb side t).mbSidesOf mb' := by
+    intro mb'; unfold Chan.mbSidesOf; rw [h1]
+  refine ⟨?_, ?_, ?_⟩
+  · intro r hr
+    rw [h1]
+    cases hs : d.findMbSide mb side with
+    | some r0 => rw [Chan.openDb_mbSides_some d app mb side t hs]; exact hr
+    | none => rw [Chan.openDb_mbSides_none d app mb side t hs]; simp [hr]
+  · unfold Chan.first2
+    rw [hof, Chan.openDb_mbSidesOf, List.take_append_of_le_length hlen]
+  · intro mb' hne
+    rw [hof, Chan.openDb_mbSidesOf]
+    simp [hne]
+
+theorem subs_of_map {cs : List Conn} {c : Nat} {f : Conn → Conn}
+    (hf : ∀ y, (f y).id = y.id ∧ (f y).mailbox = y.mailbox ∧ (f y).listening = y.listening ∧
+      (f y).app = y.app ∧ (f y).side = y.side) :
+    ∀ y ∈ cs, ∃ y' ∈ cs.map (fun y => if y.id = c then f y else y), y'.id = y.id ∧ y'.mailbox = y.mailbox ∧
+      y'.listening = y.listening ∧ y'.app = y.app ∧ y'.side = y.side := by
+  intro y hy
+  refine ⟨if y.id = c then f y else y, List.mem_map.2 ⟨y, hy, rfl⟩, ?_⟩
+  split
+  · exact hf y
+  · exact ⟨rfl, rfl, rfl, rfl, rfl⟩
+
+/-- **C05 (the first two keep what they have) — PARTIAL, finding K-crowded-rejoin.**  Full
+    statement (FALSE for the model and the code, `C05_rejoin_counterexample`): "the first two sides
+    keep their access".  What holds: a refused `open` removes or alters no side row, no message and
+    nobody's subscription, and `first2` of the mailbox is unchanged — the access the first two sides
+    HAVE (their live subscriptions, their stored rows and messages) stays; what is lost is their
+    ability to subscribe from a NEW connection. -/
+theorem C05_keep_partial {g : GSys} (hI : g.GInv) {c : Nat} {x : Conn} {mb app : String}
+    (hx : g.sys.findConn c = some x) (hr : rejectText x (.open_ (some mb)) = none)
+    (happ : x.app = some app) (hrow : g.sys.db.HasBox app mb)
+    (h3 : Third g.sys.db mb (x.side.getD "")) (t : Time) (id : Val) :
+    Keeps g.sys (g.sys.step (.recv c t id (.open_ (some mb)))) mb := by
+  have hP := hI.cinv.toPInv
+  obtain ⟨_, hcr, _⟩ := open_step hP hI.synced hx hr happ t id
+  obtain ⟨_, hdb, _, _, _, _, hconns⟩ := hcr (fun hcl => hcl.2 hrow) (h3.crowds app t)
+  obtain ⟨k1, k2, k3⟩ := keeps_of_openDb (d := g.sys.db) (d' := (g.sys.step (.recv c t id (.open_ (some mb)))).db)
+    (app := app) (mb := mb) (side := x.side.getD "") (t := t) (by rw [hdb]) h3.two_le
+  refine ⟨k1, k2, k3, by rw [hdb]; rfl, ?_⟩
+  rw [hconns]
+  exact subs_of_map (fun y => ⟨rfl, rfl, rfl, rfl, rfl⟩)
+
+/-- the same for a refused handle-less `close` -/
+theorem C05_keep_partial_close {g : GSys} (hI : g.GInv) {c : Nat} {x : Conn} {m mood : Option String}
+    {mb app : String} (hx : g.sys.findConn c = some x) (hr : rejectText x (.close m mood) = none)
+    (happ : x.app = some app) (hnone : x.mailbox = none) (htg : x.closeTarget m = some mb)
+    (hrow : g.sys.db.HasBox app mb) (h3 : Third g.sys.db mb (x.side.getD "")) (t : Time) (id : Val) :
+    Keeps g.sys (g.sys.step (.recv c t id (.close m mood))) mb := by
+  obtain ⟨_, _, hconns, hdb, _⟩ := C05_third_excluded_close hI hx hr happ hnone htg hrow h3 t id
+  obtain ⟨k1, k2, k3⟩ := keeps_of_openDb (d := g.sys.db) (d' := (g.sys.step (.recv c t id (.close m mood))).db)
+    (app := app) (mb := mb) (side := x.side.getD "") (t := t) (by rw [hdb]) h3.two_le
+  refine ⟨k1, k2, k3, by rw [hdb]; rfl, ?_⟩
+  rw [hconns]
+  intro y hy
+  exact ⟨y, hy, rfl, rfl, rfl, rfl, rfl⟩
+
+/-- the same for a refused `claim` -/
+theorem C05_keep_partial_claim {g : GSys} (hI : g.GInv) {c : Nat} {x : Conn} {name fresh app : String}
+    {row : Nameplate} (hx : g.sys.findConn c = some x) (hr : rejectText x (.claim (some name) fresh) = none)
+    (happ : x.app = some app) (hrow : g.sys.db.findNameplate app name = some row)
+    (h3 : Third g.sys.db row.mailbox (x.side.getD "")) (t : Time) (id : Val) :
+    Keeps g.sys (g.sys.step (.recv c t id (.claim (some name) fresh))) row.mailbox := by
+  obtain ⟨_, _, hconns, hre, hcr⟩ := C05_third_excluded_claim hI hx hr happ hrow h3 t id
+  have hsubs : ∀ y ∈ g.sys.conns, ∃ y' ∈ (g.sys.step (.recv c t id (.claim (some name) fresh))).conns,
+      y'.id = y.id ∧ y'.mailbox = y.mailbox ∧ y'.listening = y.listening ∧ y'.app = y.app ∧ y'.side = y.side := by
+    rw [hconns]
+    exact subs_of_map (fun y => ⟨rfl, rfl, rfl, rfl, rfl⟩)
+  by_cases hu : ∃ r0, g.sys.db.findNpSide row.id (x.side.getD "") = some r0 ∧ r0.claimed = false
+  · have hdb := hre hu
+    exact ⟨by rw [hdb]; exact fun r hr => hr, by rw [hdb], by rw [hdb]; exact fun _ _ => rfl, by rw [hdb], hsubs⟩
+  · obtain ⟨hsd, hmsg, _⟩ := hcr hu
+    obtain ⟨k1, k2, k3⟩ := keeps_of_openDb hsd h3.two_le
+    exact ⟨k1, k2, k3, hmsg, hsubs⟩
+
+/-! ## nameplates -/
+
+/-- **C05 (what `claimed` tells).**  If a `claim` is answered `claimed mb'`, then afterwards the
+    nameplate row (app, name) exists and points at `mb'`, the caller's side is among its at most
+    two side rows, and among the at most two side rows of `mb'` (`Chan.ClaimedFacts`). -/
+theorem C05_claimed_sides {g : GSys} (hI : g.GInv) {c : Nat} {x : Conn} {name fresh app : String}
+    (hx : g.sys.findConn c = some x) (hr : rejectText x (.claim (some name) fresh) = none)
+    (happ : x.app = some app) (t : Time) (id : Val) {c' : Nat} {mb' : String} {b : Bool}
+    (hfr : Event.frame c' (.claimed mb') b ∈ (g.sys.step (.recv c t id (.claim (some name) fresh))).out) :
+    (g.sys.step (.recv c t id (.claim (some name) fresh))).db.ClaimedFacts app name (x.side.getD "") mb' := by
+  obtain ⟨s1, r, hcl, ⟨commits, hc, hout⟩, hdb, _, _⟩ := claim_step hI.cinv.toPInv hI.synced hx hr happ t id
+  rw [hout] at hfr
+  simp only [List.mem_cons, List.mem_append, List.not_mem_nil, or_false] at hfr
+  rcases hfr with hfr | hfr | hfr
+  · cases hfr
+  · obtain ⟨w, hw⟩ := hc _ hfr; cases hw
+  · cases r with
+    | ok mb =>
+      simp only [claimAnswer, Event.frame.injEq, Frame.claimed.injEq] at hfr
+      obtain ⟨_, rfl, _⟩ := hfr
+      rw [hdb]
+      exact claimNameplate_ok hcl
+    | crowded => simp [claimAnswer] at hfr
+    | reclaimed => simp [claimAnswer] at hfr
+    | integrity => simp [claimAnswer] at hfr
+
+/-- **C05 (side rows of a nameplate are never deleted while the nameplate row lives).**  Over
+    EVERY operation: a nameplate row that is there afterwards and whose id is below the old counter
+    was there before, and its list of sides has only grown at the end. -/
+theorem C05_np_sides_only_grow {g : GSys} (hI : g.GInv) (op : Op) :
+    Chan.NpGrow g.sys.db (g.sys.step op).db :=
+  step_NpGrow g.sys hI.synced.1 hI.cinv.npIds op
+
+/-- operation `op` answers `claimed` to side `σ` for the nameplate row with id `n` -/
+def ClaimedNow (g : GSys) (op : Op) (n : Nat) (σ : String) : Prop :=
+  ∃ c t id name fresh x app mb b, op = .recv c t id (.claim (some name) fresh) ∧
+    g.sys.findConn c = some x ∧ x.app = some app ∧ x.side.getD "" = σ ∧
+    Event.frame c (.claimed mb) b ∈ (g.sys.step op).out ∧
+    ∃ row ∈ (g.sys.step op).db.nameplates, row.id = n ∧ row.app = app ∧ row.name = name
+
+/-- some operation of the history answers `claimed` to side `σ` for nameplate row id `n` -/
+def ClaimedIn : GSys → List Op → Nat → String → Prop
+  | _, [], _, _ => False
+  | g, op :: rest, n, σ => ClaimedNow g op n σ ∨ ClaimedIn (g.step op) rest n σ
+
+theorem claimedNow_facts {g : GSys} (hI : g.GInv) {op : Op} (hI' : (g.step op).GInv) {n : Nat} {σ : String}
+    (h : ClaimedNow g op n σ) :
+    (∃ row ∈ (g.sys.step op).db.nameplates, row.id = n) ∧ σ ∈ (g.sys.step op).db.npSideNames n ∧
+    ((g.sys.step op).db.npSideNames n).length ≤ 2 := by
+  obtain ⟨c, t, id, name, fresh, x, app, mb, b, rfl, hx, happ, hσ, hfr, row, hrow, hid, hra, hrn⟩ := h
+  have hr : rejectText x (.claim (some name) fresh) = none := by
+    cases hrj : rejectText x (.claim (some name) fresh) with
+    | none => rfl
+    | some text =>
+      have := (C17_validation_error t id hx (rejected_of_rejectText hrj)).1
+      rw [this] at hfr
+      simp at hfr
+  obtain ⟨n0, hn0, ha, hnm, _, hside, hlen, _⟩ := C05_claimed_sides hI hx hr happ t id hfr
+  have hP' : (g.sys.step (.recv c t id (.claim (some name) fresh))).db.PInv := hI'.cinv.toPInv
+  have hkey : ((g.sys.step (.recv c t id (.claim (some name) fresh))).db.nameplates).Pairwise
+      (fun a b => ¬ (fun r : Nameplate => (r.app, r.name)) a = (fun r : Nameplate => (r.app, r.name)) b) :=
+    hP'.npKey.imp (by intro a b hab he; simp only [Prod.mk.injEq] at he; exact hab he)
+  have : n0 = row := Chan.eq_of_pairwise_ne hkey hn0 hrow (by simp [ha, hnm, hra, hrn])
+  subst this
+  subst hid
+  refine ⟨⟨n0, hrow, rfl⟩, by rw [← hσ]; exact hside, ?_⟩
+  simp only [Chan.npSideNames, List.length_map]
+  exact hlen
+
+theorem nameplate_two_aux (hreach : ∀ g : GSys, g.Reach → g.GInv) (n : Nat) :
+    ∀ (ops : List Op) {g : GSys}, g.Reach → g.WF ops → ∀ (S : String → Prop),
+      (∀ σ, S σ → n < g.sys.db.nextNp) →
+      (∀ row ∈ g.sys.db.nameplates, row.id = n → ∀ σ, S σ → σ ∈ g.sys.db.npSideNames n) →
+      (∃ l : List String, l.length ≤ 2 ∧ ∀ σ, S σ → σ ∈ l) →
+      ∃ l : List String, l.length ≤ 2 ∧ ∀ σ, (S σ ∨ ClaimedIn g ops n σ) → σ ∈ l := by
+  intro ops
+  induction ops with
+  | nil =>
+    intro g _ _ S _ _ ⟨l, hl, hS⟩
+    exact ⟨l, hl, fun σ h => by rcases h with h | h; exact hS σ h; cases h⟩
+  | cons op rest ih =>
+    intro g hg hwf S hlt hin hl
+    have hI := hreach g hg
+    have hg' : (g.step op).Reach := .step op hg hwf.1
+    have hI' := hreach _ hg'
+    have hgrow : Chan.NpGrow g.sys.db (g.sys.step op).db := C05_np_sides_only_grow hI op
+    have hb : ∀ row ∈ (g.sys.step op).db.nameplates, row.id = n → ∀ σ, (S σ ∨ ClaimedNow g op n σ) →
+        σ ∈ (g.sys.step op).db.npSideNames n := by
+      intro row hrow hid σ hσ
+      rcases hσ with hσ | hσ
+      · have hn := hlt σ hσ
+        have hrow0 := hgrow.rows row hrow (by rw [hid]; exact hn)
+        have := hgrow.sides row hrow (by rw [hid]; exact hn)
+        rw [hid] at this
+        exact this.mem (hin row hrow0 hid σ hσ)
+      · exact (claimedNow_facts hI hI' hσ).2.1
+    obtain ⟨l', hl', hS'⟩ := ih (g := g.step op) hg' hwf.2 (fun σ => S σ ∨ ClaimedNow g op n σ)
+      (by
+        intro σ hσ
+        rcases hσ with hσ | hσ
+        · exact Nat.lt_of_lt_of_le (hlt σ hσ) hgrow.next
+        · obtain ⟨⟨row, hrow, hid⟩, _, _⟩ := claimedNow_facts hI hI' hσ
+          rw [← hid]
+          exact hI'.cinv.bounded.1 row hrow)
+      hb
+      (by
+        by_cases hex : ∃ σ, ClaimedNow g op n σ
+        · obtain ⟨σ0, hσ0⟩ := hex
+          obtain ⟨⟨row, hrow, hid⟩, _, hlen⟩ := claimedNow_facts hI hI' hσ0
+          exact ⟨_, hlen, fun σ hσ => hb row hrow hid σ hσ⟩
+        · obtain ⟨l, hl1, hl2⟩ := hl
+          refine ⟨l, hl1, fun σ hσ => ?_⟩
+          rcases hσ with hσ | hσ
+          · exact hl2 σ hσ
+          · exact absurd ⟨σ, hσ⟩ hex)
+    refine ⟨l', hl', fun σ hσ => hS' σ ?_⟩
+    rcases hσ with hσ | hσ | hσ
+    · exact Or.inl (Or.inl hσ)
+    · exact Or.inl (Or.inr hσ)
+    · exact Or.inr hσ
+
+/-- **C05 (at most two sides are told the mailbox of one nameplate incarnation).**  Along every
+    well-formed history from a reachable state, for every nameplate row id `n` (ids are never
+    re-used, so an id IS an incarnation) the sides that are answered `claimed` for `n` all lie in one
+    list of at most two sides. -/
+theorem C05_nameplate_two (hreach : ∀ g : GSys, g.Reach → g.GInv) {g : GSys} (hg : g.Reach)
+    (ops : List Op) (hwf : g.WF ops) (n : Nat) :
+    ∃ l : List String, l.length ≤ 2 ∧ ∀ σ, ClaimedIn g ops n σ → σ ∈ l := by
+  obtain ⟨l, hl, h⟩ := nameplate_two_aux hreach n ops hg hwf (fun _ => False)
+    (fun _ h => h.elim) (fun _ _ _ _ h => h.elim) ⟨[], by simp, fun _ h => h.elim⟩
+  exact ⟨l, hl, fun σ hσ => h σ (Or.inr hσ)⟩
+
+/-! ### the history-level theorems with the reachability invariant plugged in -/
+
+theorem C05_subscribers_first2_reach {g : GSys} (hg : g.Reach) : SubFirst2 g.sys :=
+  C05_subscribers_first2 (fun _ h => h.ginv) hg
+
+theorem C05_nameplate_two_reach {g : GSys} (hg : g.Reach) (ops : List Op) (hwf : g.WF ops) (n : Nat) :
+    ∃ l : List String, l.length ≤ 2 ∧ ∀ σ, ClaimedIn g ops n σ → σ ∈ l :=
+  C05_nameplate_two (fun _ h => h.ginv) hg ops hwf n
+
+/-! ## Non-vacuity and the counterexample -/
+
+namespace Ex
+
+instance (d : Chan) : Decidable d.IdsBounded := by unfold Chan.IdsBounded; infer_instance
+instance (d : Chan) (mb side : String) : Decidable (Third d mb side) := by unfold Third; infer_instance
+
+/-- sides s1 and s2 share mailbox "m" (nameplate "7" still points at it, held by s1) and are both
+    subscribed; connection 3 is bound to a third side s3 and has done nothing yet -/
+def db0 : Chan :=
+  { nameplates := [⟨1, "app", "7", "m"⟩],
+    npSides := [⟨1, true, "s1", 90⟩],
+    mailboxes := [⟨"app", "m", 100, true⟩],
+    mbSides := [⟨"m", true, "s1", 100, none⟩, ⟨"m", true, "s2", 100, none⟩],
+    messages := [⟨"app", "m", "s1", .str "pake", .str "b", 100, .str "i"⟩],
+    nextNp := 2 }
+
+def conn1 : Conn :=
+  { id := 1, app := some "app", side := some "s1", mailbox := some "m", mailboxId := some "m", listening := true }
+def conn2 : Conn :=
+  { id := 2, app := some "app", side := some "s2", mailbox := some "m", mailboxId := some "m", listening := true }
+def conn3 : Conn := { id := 3, app := some "app", side := some "s3" }
+
+def sys0 : Sys := { db := db0, disk := db0, conns := [conn1, conn2, conn3] }
+def g0 : GSys := ⟨sys0, 100, ["m"]⟩
+
+theorem g0_ginv : g0.GInv :=
+  ⟨⟨by constructor <;> decide, by decide⟩, by constructor <;> decide, ⟨rfl, rfl⟩, by decide, by decide, by decide⟩
+
+/-- the hypotheses of `C05_third_excluded_open` / `C05_keep_partial` hold for connection 3 -/
+example : g0.sys.findConn 3 = some conn3 ∧ rejectText conn3 (.open_ (some "m")) = none ∧
+    conn3.app = some "app" ∧ g0.sys.db.HasBox "app" "m" ∧ Third g0.sys.db "m" (conn3.side.getD "") := by
+  decide
+
+/-- ... those of `C05_third_excluded_close` ... -/
+example : rejectText conn3 (.close (some "m") none) = none ∧ conn3.mailbox = none ∧
+    conn3.closeTarget (some "m") = some "m" := by decide
+
+/-- ... and those of `C05_third_excluded_claim` -/
+example : rejectText conn3 (.claim (some "7") "f") = none ∧
+    g0.sys.db.findNameplate "app" "7" = some ⟨1, "app", "7", "m"⟩ ∧
+    Third g0.sys.db "m" (conn3.side.getD "") := by decide
+
+/-- evaluated: the three refusals -/
+example :
+    (g0.sys.step (.recv 3 200 (.int 1) (.open_ (some "m")))).out =
+      [.frame 3 (.ack (.int 1)) true, .commit .chan, .frame 3 (.error "crowded") true] ∧
+    (g0.sys.step (.recv 3 200 (.int 1) (.close (some "m") none))).out =
+      [.frame 3 (.ack (.int 1)) true, .commit .chan, .frame 3 (.error "crowded") true] ∧
+    (g0.sys.step (.recv 3 200 (.int 1) (.claim (some "7") "f"))).out =
+      [.frame 3 (.ack (.int 1)) true, .commit .chan, .commit .chan, .frame 3 (.error "crowded") true] := by
+  decide +kernel
+
+/-- a history: s1 and s2 open "m"; a third side s3 tries (refused); then s1 comes back on a NEW
+    connection (4) -/
+def hist : List Op :=
+  [ .connect 1, .recv 1 10 .null (.bind (some "app") (some "s1") none none), .recv 1 11 .null (.open_ (some "m")),
+    .connect 2, .recv 2 12 .null (.bind (some "app") (some "s2") none none), .recv 2 13 .null (.open_ (some "m")),
+    .connect 3, .recv 3 14 .null (.bind (some "app") (some "s3") none none), .recv 3 15 .null (.open_ (some "m")),
+    .connect 4, .recv 4 16 .null (.bind (some "app") (some "s1") none none) ]
+
+def gR : GSys := (GSys.init {} 0).run hist
+
+theorem gR_reach : gR.Reach := GSys.reach_of_wfB {} 0 hist (by decide +kernel)
+
+/-- **K-crowded-rejoin.**  In the REACHABLE state `gR` side s1 is one of the first two sides of
+    mailbox "m" and connection 1 of s1 is still subscribed; nevertheless an `open` of "m" on s1's new
+    connection 4 is answered `crowded`: the first two do NOT keep the ability to (re)subscribe. -/
+theorem C05_rejoin_counterexample :
+    gR.sys.db.first2 "m" = ["s1", "s2"] ∧
+    (gR.sys.findConn 4).map (fun y => (y.app, y.side, y.mailbox)) = some (some "app", some "s1", none) ∧
+    (gR.sys.findConn 1).map (fun y => (y.side, y.mailbox, y.listening)) = some (some "s1", some "m", true) ∧
+    (gR.sys.step (.recv 4 17 (.int 9) (.open_ (some "m")))).out =
+      [.frame 4 (.ack (.int 9)) true, .commit .chan, .frame 4 (.error "crowded") true] := by
+  decide +kernel
+
+/-- `C05_subscribers_first2` is not vacuous: in `gR` two connections are subscribed, both first-two -/
+example : SubFirst2 gR.sys := C05_subscribers_first2_reach gR_reach
+example : (gR.sys.conns.filter (fun y => y.mailbox.isSome)).map (fun y => y.side) = [some "s1", some "s2"] := by
+  decide +kernel
+
+/-- `C05_ever_subscribed`: in `hist` the row of "m" exists from the third operation on -/
+example : ∀ p1 p2, hist.drop 3 = p1 ++ p2 → p1 ≠ [] →
+    (((GSys.init {} 0).run (hist.take 3)).run p1).sys.db.HasId "m" := by
+  intro p1 p2 h hne
+  have hk : ∀ k, k < 9 → 1 ≤ k →
+      (((GSys.init {} 0).run (hist.take 3)).run ((hist.drop 3).take k)).sys.db.HasId "m" := by
+    decide +kernel
+  have h1 : p1 = (hist.drop 3).take p1.length := by rw [h]; simp
+  have h2 : p1.length + p2.length = 8 := by
+    have := congrArg List.length h
+    simp only [List.length_append] at this
+    rw [← this]; rfl
+  have h3 : 1 ≤ p1.length := by
+    cases p1 with
+    | nil => exact absurd rfl hne
+    | cons a l => simp
+  rw [h1]
+  exact hk p1.length (by omega) h3
+
+/-- a history in which nameplate row 1 is claimed by two sides (both answered `claimed`) and then
+    by a third (refused) -/
+def histN : List Op :=
+  [ .connect 1, .recv 1 10 .null (.bind (some "app") (some "s1") none none), .recv 1 11 .null (.claim (some "7") "mb"),
+    .connect 2, .recv 2 12 .null (.bind (some "app") (some "s2") none none), .recv 2 13 .null (.claim (some "7") "f2"),
+    .connect 3, .recv 3 14 .null (.bind (some "app") (some "s3") none none), .recv 3 15 .null (.claim (some "7") "f3") ]
+
+example : (GSys.init {} 0).WF histN := GSys.wfB_sound (by decide +kernel)
+
+/-- `ClaimedIn` is inhabited: the third operation answers `claimed` to s1 for row 1 ... -/
+example : ClaimedIn (GSys.init {} 0) histN 1 "s1" := by
+  refine Or.inr (Or.inr (Or.inl ⟨1, 11, .null, "7", "mb", { id := 1, app := some "app", side := some "s1" },
+    "app", "mb", true, rfl, by decide +kernel, rfl, rfl, by decide +kernel, ⟨1, "app", "7", "mb"⟩,
+    by decide +kernel, rfl, rfl, rfl⟩))
+
+/-- ... and the frames of the whole history: two `claimed`, then `crowded` -/
+example : ((Sys.run { rebooted := 0 } histN).2.filterMap
+    (fun e => match e with | .frame c (.claimed m) _ => some (c, m) | .frame c (.error t) _ => some (c, t) | _ => none)) =
+    [(1, "mb"), (2, "mb"), (3, "crowded")] := by
+  decide +kernel
+
+end Ex
+
 end C05
 end Wormhole
+
+#print axioms Wormhole.C05.C05_third_excluded_open
+#print axioms Wormhole.C05.C05_third_excluded_close
+#print axioms Wormhole.C05.C05_third_excluded_claim
+#print axioms Wormhole.C05.handle_origin
+#print axioms Wormhole.C05.C05_sides_only_grow
+#print axioms Wormhole.C05.C05_side_rows_kept
+#print axioms Wormhole.C05.C05_crowded_stays
+#print axioms Wormhole.C05.C05_first2_stable
+#print axioms Wormhole.C05.C05_open_grants_first2
+#print axioms Wormhole.C05.C05_subscribers_first2_step
+#print axioms Wormhole.C05.C05_subscribers_first2
+#print axioms Wormhole.C05.C05_ever_subscribed
+#print axioms Wormhole.C05.C05_keep_partial
+#print axioms Wormhole.C05.C05_keep_partial_close
+#print axioms Wormhole.C05.C05_keep_partial_claim
+#print axioms Wormhole.C05.C05_claimed_sides
+#print axioms Wormhole.C05.C05_np_sides_only_grow
+#print axioms Wormhole.C05.C05_nameplate_two
+#print axioms Wormhole.C05.C05_subscribers_first2_reach
+#print axioms Wormhole.C05.C05_nameplate_two_reach
+#print axioms Wormhole.C05.Ex.C05_rejoin_counterexample
